@@ -199,6 +199,14 @@ def _run(ctx):
         f1, f2, f3 = comps()
         rr = raises(lambda: I.call(act, ["<s>", 0, [sp.Integer(60), f1, sp.Integer(50), f2, f3]], {}))
         ctx.check(rr == "ValueError", "R3", f"by {mode}: percentages above 100 raise ValueError", f"got {rr}", site)
+        # boundaries of the percentages: a remainder below one percent, and no remainder at all
+        for pa, pb in ((sp.Integer(60), sp.Rational(79, 2)), (sp.Rational(999, 10), sp.Rational(1, 20))):
+            f1, f2, f3 = comps()
+            rr = raises(lambda: I.call(act, ["<s>", 0, [pa, f1, pb, f2, f3]], {}))
+            ctx.check(rr is None, "R3", f"by {mode}: {float(pa):g}% + {float(pb):g}% leaves {float(100 - pa - pb):g}% for the last part", f"raises {rr}", site)
+        f1, f2, f3 = comps()
+        rr = raises(lambda: I.call(act, ["<s>", 0, [sp.Integer(60), f1, sp.Integer(40), f2, f3]], {}))
+        ctx.check(rr is None, "R3", f"by {mode}: percentages summing to exactly 100 are accepted (the last part gets nothing)", f"raises {rr}", site)
         f1, f2, f3 = comps()
         r = I.call(act, ["<s>", 0, [sp.Integer(30), f1, f3]], {})
         rh = I.call(hf, [[(f1, sp.Integer(30)), (f3, sp.Integer(70))]], {})
@@ -260,7 +268,7 @@ def _run(ctx):
     r = I.call(act, ["<s>", 0, [inner, rep, [v2, "mg"], f3]], {})
     eq(ctx, "R3", "repeated mass group: total_mass = n * inner + rest", I.getattr(r, "total_mass"),
        rep * (v1 + v2) + v2 * SI["m"], site)
-    ctx.floor("R3", 30)
+    ctx.floor("R3", 36)
 
     # ---- R4 attributes read on formulas in the actions are written somewhere -------
     written = set()
